@@ -17,6 +17,7 @@ from __future__ import annotations
 from .common import *  # noqa
 from .common import _is_index_expr
 from .grlib import REMOVE_PBC, no_wrap_possible
+from . import grlib as grlib_mod
 from ..vg import Interp
 
 # (function, reason) - occurrences in these functions are accepted as class (4)
@@ -115,13 +116,17 @@ def classify_path(p, path):
             # not handed to remove_pbc: an inline (or helper) re-implementation of the minimum image is accepted when it is
             # verified against the reference form (shared with C02's frame typing and algebra)
             from . import grlib
-            for b in anc[idx + 1:]:
-                if b[0] in ("bin", "call") and any(x[0] == "call" and x[1] in ("numpy.rint", "numpy.round", "numpy.around") for x in walk(b)):
-                    v = grlib.inline_image(grlib._inline(b), record=False)
-                    if v[0] == "ok":
-                        return "imaged-difference"
-                    if v[0] == "bad":
-                        return "wrong-inline-image:" + str(v[1])[:400]
+            chain = [b for b in anc[idx + 1:] if b[0] in ("bin", "call", "attr", "sub") and any(x[0] == "call" and x[1] in ("numpy.rint", "numpy.round", "numpy.around") for x in walk(b))]
+            for b in chain:
+                if grlib.inline_image(grlib._inline(b), record=False)[0] == "ok":
+                    return "imaged-difference"
+            # only the outermost ancestor that is still a coordinate expression (closed under the image grammar) can be judged
+            # wrong: inner ones are intermediates such as the wrapped fractional vector
+            closed = [b for b in chain if grlib.image_grammar(grlib._inline(b))]
+            if closed:
+                v = grlib.inline_image(grlib._inline(closed[-1]), record=False)
+                if v[0] == "bad":
+                    return "wrong-inline-image:" + str(v[1])[:400]
             # definite only when nothing above the difference could fold it back into the cell
             WRAPLIKE = ("numpy.rint", "numpy.round", "numpy.around", "numpy.floor", "numpy.ceil", "numpy.trunc", "numpy.mod", "numpy.remainder", "numpy.fmod",
                         "numpy.where", "numpy.select", "numpy.divmod", "builtins.round", "builtins.divmod", "math.floor")
@@ -189,6 +194,12 @@ def run(run: Run, pkg: Package) -> None:
             if ev.kind == "store":
                 vals = [ev.data["value"]]
             elif ev.kind == "aug":
+                # an in-place update of a local intermediate whose new value is consumed by a later statement is classified
+                # there, as part of the complete expression (x -= np.rint(x) * ppp is only the middle of a minimum image)
+                new = ev.data.get("new")
+                if new is not None and new[0] != "mu" and any(e2.seq > ev.seq and any(isinstance(v2, tuple) and new in list(walk(v2)) for v2 in e2.data.values())
+                                                              for e2 in it.events if e2.kind in ("assign", "store", "return", "call")):
+                    continue
                 vals = [ev.data["value"]]
             elif ev.kind == "return":
                 vals = [ev.data["value"]]
@@ -199,6 +210,15 @@ def run(run: Run, pkg: Package) -> None:
                 continue
             for v in vals:
                 out = []
+                # differences of row-wise linearly transformed coordinates are transformed differences of coordinates
+                for _ in range(6):
+                    try:
+                        v2 = grlib_mod.lift_transformed_difference(v)
+                    except Exception:  # noqa
+                        break
+                    if v2 == v:
+                        break
+                    v = v2
                 classify(v, [], out)
                 for atom, cls in out:
                     key = f"{cls.split(':')[0]}@{key_of(ev)[:70]}"
